@@ -58,6 +58,17 @@ def cases(rng, tier):
          ("gate", "wr", ["a"], ["t"], [("apply", "flip", [A], [("sub", ("var", "t"), ("var", "pi"))]), ("apply", "h", [A], [])]),
          ("apply", "wr", [q1], [("var", "pi")]), ("apply", "flip", [q0], [Z0])],
     ]
+    # formal parameters whose names read like numbers (legal identifiers all of them): the name alone, signed, passed on to
+    # a nested gate, inside an expression
+    for w in ("inf", "nan", "infinity", "Inf", "NaN", "INFINITY", "e", "e1"):
+        V = ("var", w)
+        shadow += [
+            [("gate", "gw", ["a"], [w], [("apply", "rx", [A], [V]), ("apply", "rz", [A], [("neg", V)])]), ("apply", "gw", [q0], [("num", "0.7")]),
+             ("apply", "gw", [q1], [("num", "4")])],
+            [("gate", "inv", ["a"], ["x"], [("apply", "rx", [A], [("div", ("num", "1"), ("var", "x"))])]),
+             ("gate", "outer", ["a"], [w], [("apply", "inv", [A], [V]), ("apply", "ry", [A], [("mul", ("num", "2"), V)])]),
+             ("apply", "outer", [q1], [("num", "4")]), ("apply", "outer", [q0], [("neg", ("num", "0.25"))])],
+        ]
     for prog in shadow:
         nodes = pre + prog
         c = {"chunks": [nodes], "seed": 1, "lay": None}
